@@ -109,9 +109,11 @@ pub enum Prog {
     InFlightJoinDetachCall,
     /// a join is in flight when a second join is started and polled; stop; both resolve
     InFlightJoinSecondJoin,
+    /// keep a plain address; the owner is dropped by an unwinding (contained) panic; call
+    UnwindDropOwnerCall,
 }
 
-pub const PROGS: [Prog; 12] = [
+pub const PROGS: [Prog; 13] = [
     Prog::Call,
     Prog::DropOthersCall,
     Prog::DetachCall,
@@ -124,6 +126,7 @@ pub const PROGS: [Prog; 12] = [
     Prog::PendingJoinDetachCall,
     Prog::InFlightJoinDetachCall,
     Prog::InFlightJoinSecondJoin,
+    Prog::UnwindDropOwnerCall,
 ];
 
 enum Spawned {
@@ -281,6 +284,13 @@ impl Scene for S {
                     vec![Op::Call(t, 1), Op::Yield, Op::Call(t, 2)]
                 }
             }
+            Prog::UnwindDropOwnerCall => {
+                if owning {
+                    vec![Op::Call(t, 1), Op::ToAddr(H::Own(0)), Op::DropUnwinding(H::Own(0)), Op::Yield, Op::Call(H::Addr(0), 2)]
+                } else {
+                    vec![Op::Call(t, 1), Op::Clone(H::Addr(0)), Op::DropUnwinding(H::Addr(0)), Op::Yield, Op::Call(H::Addr(1), 2)]
+                }
+            }
             Prog::PanicAwaitJoin => {
                 if owning {
                     vec![Op::Call(t, 1), Op::ToAddr(H::Own(0)), Op::Send(H::Own(0), 66), Op::Await(H::Addr(0)), Op::Join(H::Own(0))]
@@ -292,6 +302,12 @@ impl Scene for S {
         match (self.prog, keep_handle) {
             (Prog::DropOthersCall, Some(handle)) => drop(handle),
             (Prog::DetachCall, Some(handle)) => handle.detach(),
+            (Prog::UnwindDropOwnerCall, Some(handle)) => {
+                let _ = std::panic::catch_unwind(std::panic::AssertUnwindSafe(move || {
+                    let _held = handle;
+                    panic!("panic while holding the raw actor handle (contained)");
+                }));
+            }
             (_, Some(handle)) => {
                 // keep the raw handle alive for the whole run
                 exec.spawn_client(1, async move {
@@ -318,7 +334,7 @@ impl Scene for S {
                 Prog::StopAwaitJoin => o.i == 0,
                 Prog::Ticks => o.i == 1,
                 Prog::CallDropAll | Prog::PanicAwaitJoin => o.i == 0,
-                Prog::AbandonJoinDetachCall | Prog::AbandonJoinDropOwnerCall | Prog::PendingJoinDetachCall | Prog::InFlightJoinDetachCall => true,
+                Prog::AbandonJoinDetachCall | Prog::AbandonJoinDropOwnerCall | Prog::PendingJoinDetachCall | Prog::InFlightJoinDetachCall | Prog::UnwindDropOwnerCall => true,
                 Prog::InFlightJoinSecondJoin => o.i == 0,
             };
             if o.c == 0 && call_op && is_call {
